@@ -18,7 +18,8 @@
 //! `1 decl` — `des_macros_core::message_body::derive_impl` on a generated declaration; prints the
 //!   canonical form of its token output (coq/Body/Derive.v `enc_output`).
 //!
-//! `2 fam k l*` — `byte_len()` of a value of one of six `#[derive(MessageBody)]` types compiled in.
+//! `2 fam k l*` — `byte_len()` of a value of one of six `#[derive(MessageBody)]` types compiled in
+//!   (record `15 len`).
 use des::net::channel::{ChannelDropBehaviour, ChannelMetrics};
 use des::net::message::{Body, Message};
 use des::time::Duration;
